@@ -99,6 +99,48 @@ def classify_context(ctx, fn_lets):
     return "other:" + t[:60]
 
 
+def check_optional_predicate(S, owner, rule):
+    """<owner>::is_optional_type tests the last path segment against "Option" (so `std::option::Option<T>` counts, `OptionalThing` does not); shared by
+    C04-D4 (CommandParser) and C10-D1 (StructParser: the `?` of the plain declaration must agree with the schema, which looks at the parsed structure)"""
+    iot = S.fn(owner, "is_optional_type")
+    if iot is None:
+        rule.bad(V(rule.id, "<anchor>", "missing:%s::is_optional_type" % owner, "anchor not found"))
+        return
+    out = []
+    collect_comparisons(iot.body, [], out)
+    txt = " ".join(expr_text(e) for e in walk_block(iot.body))
+    texty = [e for e in walk_block(iot.body) if e.get("k") == "mcall" and e["method"] in ("starts_with", "contains", "ends_with", "find")]
+    if {l for _, _, l in out} == {"Option"} and "segments.last()" in txt and not texty:
+        rule.ok("%s::is_optional_type: last segment == \"Option\"" % owner)
+    else:
+        rule.bad(V(rule.id, "%s::is_optional_type" % owner, "predicate:%s" % sorted({l for _, _, l in out} | {"%s(..)" % e["method"] for e in texty}),
+                   "optionality is decided by %s%s, not by the last path segment being `Option`" % (out, " and text tests %s" % [expr_text(e)[:40] for e in texty] if texty else "")))
+
+
+def check_naming_adds_no_literal(S, rule):
+    """a key / name is the serde rule applied to the Rust name and nothing else: apply_naming_convention appends/prepends no literal text
+    (guards for TypeScript identifiers belong to the function/type-name computations, not to the shared helper); shared by C04-D3 and C06-D1"""
+    anc = S.fn("NamingContext", "apply_naming_convention")
+    if anc is None:
+        rule.bad(V(rule.id, "<anchor>", "missing:apply_naming_convention", "anchor not found"))
+        return
+    lits = []
+    for e in walk_block(anc.body):
+        if e.get("k") == "mcall" and e["method"] in ("push", "push_str", "insert", "insert_str") and e["args"]:
+            a_ = e["args"][-1]
+            if a_.get("k") == "lit" and a_["lit"]["t"] in ("str", "char"):
+                lits.append("%s(%r)" % (e["method"], a_["lit"]["v"]))
+        if e.get("k") == "macro" and e["name"] == "format" and e.get("args") and lit_str(e["args"][0]) is not None:
+            fr = re.sub(r"\{[^{}]*\}", "", lit_str(e["args"][0]))
+            if fr:
+                lits.append("format!(%r)" % lit_str(e["args"][0]))
+    if lits:
+        rule.bad(V(rule.id, "NamingContext::apply_naming_convention", "naming-adds-literal:%s" % ",".join(sorted(lits)),
+                   "apply_naming_convention adds literal text (%s) to the converted name: every key and name built from it changes, not only the one it was meant for" % ", ".join(sorted(lits))))
+    else:
+        rule.ok("apply_naming_convention returns the rule's result unmodified")
+
+
 def check(ctx):
     P = ctx.P
     S = ctx.S
@@ -278,25 +320,7 @@ def check(ctx):
         elif bad:
             r3.bad(V(r3.id, name, "key-binding:%s" % ",".join(sorted(bad)), "parameter keys are bound to %s" % sorted(bad)))
     # a key is the serde rule applied to the Rust name and nothing else: apply_naming_convention appends/prepends no literal text
-    anc = S.fn("NamingContext", "apply_naming_convention")
-    if anc is None:
-        r3.bad(V(r3.id, "<anchor>", "missing:apply_naming_convention", "anchor not found"))
-    else:
-        lits = []
-        for e in walk_block(anc.body):
-            if e.get("k") == "mcall" and e["method"] in ("push", "push_str", "insert", "insert_str") and e["args"]:
-                a_ = e["args"][-1]
-                if a_.get("k") == "lit" and a_["lit"]["t"] in ("str", "char"):
-                    lits.append("%s(%r)" % (e["method"], a_["lit"]["v"]))
-            if e.get("k") == "macro" and e["name"] == "format" and e.get("args") and lit_str(e["args"][0]) is not None:
-                fr = re.sub(r"\{[^{}]*\}", "", lit_str(e["args"][0]))
-                if fr:
-                    lits.append("format!(%r)" % lit_str(e["args"][0]))
-        if lits:
-            r3.bad(V(r3.id, "NamingContext::apply_naming_convention", "naming-adds-literal:%s" % ",".join(sorted(lits)),
-                     "apply_naming_convention adds literal text (%s) to the converted name: every key and name built from it changes, not only the one it was meant for" % ", ".join(sorted(lits))))
-        else:
-            r3.ok("apply_naming_convention returns the rule's result unmodified")
+    check_naming_adds_no_literal(S, r3)
     # the configured default is camelCase whichever way the configuration is obtained (no file / file without the key): rule shared with C19-D3
     from c19 import check_default_sources
     vals = check_default_sources(S, r3, only={"default_parameter_case"})
@@ -314,17 +338,7 @@ def check(ctx):
               "is_optional_type tests the last path segment against \"Option\"; the `?` marker (plain) and `.optional()` (Zod) of a parameter key are "
               "guarded by exactly param.isOptional",
               "a required key marked optional (or vice versa) lets callers omit what Rust needs / forces what Rust does not")
-    iot = S.fn("CommandParser", "is_optional_type")
-    if iot is None:
-        r4.bad(V(r4.id, "<anchor>", "missing:is_optional_type", "anchor not found"))
-    else:
-        out = []
-        collect_comparisons(iot.body, [], out)
-        txt = " ".join(expr_text(e) for e in walk_block(iot.body))
-        if {l for _, _, l in out} == {"Option"} and "segments.last()" in txt:
-            r4.ok("is_optional_type: last segment == \"Option\"")
-        else:
-            r4.bad(V(r4.id, "CommandParser::is_optional_type", "predicate:%s" % sorted({l for _, _, l in out}), "optionality is decided by %s" % out))
+    check_optional_predicate(S, "CommandParser", r4)
     for name, marker in (("typescript/partials/param_interface.ts.tera", "?"), ("zod/partials/param_schemas.ts.tera", ".optional()")):
         ast = T.ast_of(name)
         found = []
